@@ -44,10 +44,19 @@ def one(fn):
 
 
 files = sorted(f for f in os.listdir(f"{HERE}/mutations") if f.endswith(".diff") and (only is None or f.split("-")[0] in only))
+if "--order" in args:  # properties to do first, in this order
+    prio = args[args.index("--order") + 1].split(",")
+    files.sort(key=lambda f: (prio.index(f.split("-")[0]) if f.split("-")[0] in prio else len(prio), f))
+# results of earlier sweeps are kept for the mutations this run does not reach
+try:
+    prev = {r["mutation"]: r for r in json.load(open(f"{HERE}/mutations/RESULTS.json"))}
+except Exception:  # noqa: BLE001
+    prev = {}
 out = []
 with ThreadPoolExecutor(jobs) as ex:
     for rec in ex.map(one, files):
         out.append(rec)
         print(json.dumps(rec)[:400], flush=True)
-        json.dump(out, open(f"{HERE}/mutations/RESULTS.json", "w"), indent=1)
+        prev[rec["mutation"]] = dict(rec, sweep=time.strftime("%Y-%m-%dT%H:%MZ", time.gmtime()))
+        json.dump(sorted(prev.values(), key=lambda r: r["mutation"]), open(f"{HERE}/mutations/RESULTS.json", "w"), indent=1)
 print("caught", sum(1 for r in out if r.get("caught")), "of", sum(1 for r in out if r.get("applies")), "applicable")
